@@ -127,7 +127,14 @@ func (r *Result) write(path string) {
 
 type Rand struct{ s uint64 }
 
-func newRand(seed int64) *Rand { return &Rand{uint64(seed)*0x9e3779b97f4a7c15 + 0x1234567} }
+// newRand mixes the seed first, so that neighbouring seeds give unrelated streams (a plain
+// seed*golden start would make seed k+1 the stream of seed k shifted by one).
+func newRand(seed int64) *Rand {
+	z := uint64(seed) + 0x632be59bd9b4e019
+	z = (z ^ (z >> 30)) * 0xbf58476d1ce4e5b9
+	z = (z ^ (z >> 27)) * 0x94d049bb133111eb
+	return &Rand{z ^ (z >> 31)}
+}
 
 func (r *Rand) u64() uint64 {
 	r.s += 0x9e3779b97f4a7c15
